@@ -395,3 +395,21 @@ package astisub
 //@   loop 1: invariant forall k int :: 0 <= k && k < idx ==> abs(real(O(k).EndAt) - affine(E0(k))) <= 1000.0 && abs(real(O(k).StartAt) - affine(S0(k))) <= 1000.0
 //@   loop 1: invariant forall k int :: idx <= k && k < old(len(s.Items)) ==> O(k).EndAt == E0(k) && O(k).StartAt == S0(k)
 //@ end
+
+// ---------------------------------------------------------------------------
+// C16  timestamp codec kernels
+// ---------------------------------------------------------------------------
+
+//@ pure pad2(n int) = (n < 10 ? "0" : "") ++ itoa(n)
+//@ pure fracUnit(k int) = k == 3 ? 1000000 : 10000000
+
+//@ func formatDuration(i time.Duration, millisecondSep string, numberOfMillisecondDigits int) (s string)
+//@   prop C16
+//@   requires 0 <= i && i < 360000000000000 && (numberOfMillisecondDigits == 2 || numberOfMillisecondDigits == 3)
+//@   ensures [rope] s == pad2(i / 3600000000000) ++ ":" ++ pad2(i % 3600000000000 / 60000000000) ++ ":" ++ pad2(i % 60000000000 / 1000000000) ++ millisecondSep ++ strpadleft(itoa(i % 1000000000 / fracUnit(numberOfMillisecondDigits)), 48, numberOfMillisecondDigits)
+//@   ensures [fraction-digits] len(strpadleft(itoa(i % 1000000000 / fracUnit(numberOfMillisecondDigits)), 48, numberOfMillisecondDigits)) == numberOfMillisecondDigits
+//@   lemma pure fields(t time.Duration, k int) : 0 <= t && (k == 2 || k == 3) ==> t % 3600000000000 / 60000000000 < 60 && t % 60000000000 / 1000000000 < 60 && t % 1000000000 / fracUnit(k) < (k == 3 ? 1000 : 100)
+//@   lemma pure truncates(t time.Duration, k int) : 0 <= t && (k == 2 || k == 3) ==> (t / 3600000000000) * 3600000000000 + (t % 3600000000000 / 60000000000) * 60000000000 + (t % 60000000000 / 1000000000) * 1000000000 + (t % 1000000000 / fracUnit(k)) * fracUnit(k) == t - t % fracUnit(k)
+//@   lemma pure monotone(t time.Duration, u time.Duration, k int) : 0 <= t && t <= u && (k == 2 || k == 3) ==> t - t % fracUnit(k) <= u - u % fracUnit(k)
+//@   assigns nothing
+//@ end
